@@ -11,6 +11,7 @@ import Dreye.Driver.Ops06
 import Dreye.Driver.Ops17
 import Dreye.Driver.Ops18
 import Dreye.Driver.Ops14
+import Dreye.Driver.Ops07
 namespace Dreye.Driver
-def allOps : List (String × Handler) := ops01 ++ ops02 ++ ops20 ++ ops19 ++ ops16 ++ ops05 ++ ops04 ++ ops03 ++ ops06 ++ ops17 ++ ops18 ++ ops14
+def allOps : List (String × Handler) := ops01 ++ ops02 ++ ops20 ++ ops19 ++ ops16 ++ ops05 ++ ops04 ++ ops03 ++ ops06 ++ ops17 ++ ops18 ++ ops14 ++ ops07
 end Dreye.Driver
